@@ -1149,7 +1149,7 @@ pub fn replay(_e: &str, case: &serde_json::Value) -> Result<(), String> {
 }
 
 pub fn run(ctx: &Ctx) -> Report {
-    let (stats, failure) = run_proptest(ctx, "cmd", 201, ctx.n(120_000, 3_000_000), strategy, |c: &CCase, st| check(c, st));
+    let (stats, failure) = run_proptest(ctx, "cmd", 201, ctx.n(120_000, 9_000_000), strategy, |c: &CCase, st| check(c, st));
     Report {
         stats,
         failure,
